@@ -1373,25 +1373,9 @@ ElemNumber::getFormattedNumber(
             toLowerCaseASCII(theResult);
             break;
 
-        case 0x3042:
-        case 0x3044:
-        case 0x30A2:
-        case 0x30A4:
-        case 0x4E00:
-        case 0x58F9:
-        case 0x0E51:
-        case 0x05D0:
-        case 0x10D0:
-        case 0x0430:
-            {
-                StylesheetExecutionContext::GetCachedString     theGuard(executionContext);
-
-                error(
-                    executionContext,
-                    XalanMessages::NumberingFormatNotSupported_1Param,
-                    NumberToHexDOMString(numberType, theGuard.get()));
-                break;
-            }
+        // A numbering sequence that is not supported uses a format
+        // token of 1 (XSLT 7.7.1), so Hiragana, Katakana, CJK, Thai,
+        // Hebrew, Georgian and Cyrillic tokens are handled by the default...
 
         // Handle the special case of Greek letters for now
         case elalphaNumberType:
